@@ -1181,10 +1181,16 @@ func (e *Extractor) deduplicateFragments() []TextFragment {
 	result := make([]TextFragment, 0, len(e.fragments))
 
 	for _, frag := range e.fragments {
-		// Round position to handle minor floating point differences
+		// Round position to handle minor floating point differences. The grid is one unit for
+		// text of 12 units and larger and shrinks with the glyph size, so that on pages drawn
+		// through a scaling CTM neighbouring identical glyphs ("ll", "oo") are not merged.
+		grid := frag.Height / 12
+		if grid <= 0 || grid > 1 {
+			grid = 1
+		}
 		key := fragKey{
-			x:    int(frag.X + 0.5), // Round to nearest integer
-			y:    int(frag.Y + 0.5),
+			x:    int(frag.X/grid + 0.5), // Round to nearest grid point
+			y:    int(frag.Y/grid + 0.5),
 			text: frag.Text,
 		}
 
